@@ -1,7 +1,7 @@
 (* C04 — reverse proxy relays requests and responses faithfully: property theorems only.
    Each is closed by [exact] of a lemma proved in C04_Proofs.v and followed by Print Assumptions.
    Headers are Go maps, so statements are pointwise in the looked-up key (hlookup). *)
-Require Import V.Lib V.GoPath V.GoNet V.Gen_C04 V.C04_Model V.C04_Proofs V.C04_TrailerProofs.
+Require Import V.Lib V.GoPath V.GoNet V.Gen_C04 V.C04_Model V.C04_Proofs V.C04_TrailerProofs V.C04_HeapModel V.C04_HeapProofs.
 Open Scope N_scope.
 
 (* ---- request direction: createUpstreamRequest ---- *)
@@ -504,3 +504,90 @@ Example C04_trailers_shared_name_forced_witness :
   hlookup (rw_trailers (rw_run true wit_sh (resp_ops wit_sb_forced [bs "body"%string]))) (bs "X-T1"%string)
   = Some [bs "t1"%string; bs "pending"%string].
 Proof. exact trailers_shared_name_forced_witness. Qed.
+
+(* ---- proxy-added headers the client names in a Connection line ---- *)
+
+(* X-Forwarded-For named in ANY Connection line (any case, any position): the Connection-listed
+   removal runs BEFORE the prior value is read, so the backend sees the client address alone -
+   a client cannot have a forged X-Forwarded-For folded in and have it both ways (C04_xff_appended
+   covers the other case: not named => prior values kept and folded). *)
+Theorem C04_xff_listed_in_connection :
+  forall h remote ip port tok,
+  split_host_port remote = Some (ip, port) ->
+  In tok (all_conn_tokens h) -> canon_key tok = K_XFF ->
+  hlookup (create_upstream_headers remote h) K_XFF = Some [ip].
+Proof. exact xff_listed_in_connection. Qed.
+Print Assumptions C04_xff_listed_in_connection.
+
+Example C04_xff_listed_in_connection_nonvacuous :
+  (split_host_port (bs "192.0.2.7:4711"%string) = Some (bs "192.0.2.7"%string, bs "4711"%string)) /\
+  (In (bs "x-forwarded-for"%string) (all_conn_tokens wit_xff_conn)) /\
+  (canon_key (bs "x-forwarded-for"%string) = K_XFF) /\
+  (hlookup (create_upstream_headers (bs "192.0.2.7:4711"%string) wit_xff_conn) K_XFF = Some [bs "192.0.2.7"%string]).
+Proof. exact xff_listed_nonvacuous. Qed.
+
+(* Every other header the proxy adds by rule (transparent's Host / X-Real-IP / X-Forwarded-Proto /
+   X-Forwarded-Port, any header_upstream rule): named in a Connection line, what the backend gets is
+   what the configured operations make of an ABSENT header, for every rule table and header map. *)
+Theorem C04_proxy_added_listed_in_connection :
+  forall e h0 rules res h remote tok,
+  In tok (all_conn_tokens h) -> canon_key tok <> K_XFF ->
+  hlookup (mutate_headers e h0 rules res (create_upstream_headers remote h)) (canon_key tok) =
+  fold_left vop_apply (vops_for (subst_of e h0) rules (canon_key tok) ++ revops_for (subst_of e h0) res (canon_key tok)) None.
+Proof. exact proxy_added_listed_in_connection. Qed.
+Print Assumptions C04_proxy_added_listed_in_connection.
+
+(* ---- memory: buffered request bodies, the pooled copy buffers, concurrent relays ---- *)
+
+(* C04_HeapModel: an explicit heap of buffers with owners; newBufferedBody / rewind / the transport's
+   reads and pooledIoCopy's Get / Read / Write / Put are steps on ADDRESSES. For EVERY interleaving
+   (any trace of labels) of any number of requests and copy loops, every buffer size: a buffer in the
+   pool is referenced by nobody, a body's backing array is never a copy loop's buffer, and no buffer
+   has two holders. *)
+Theorem C04_heap_ownership :
+  forall cap tr s,
+  run false cap st0 tr = Some s ->
+  (forall a, c_owner (s_heap s a) = InPool ->
+     (forall r, rq_buf (s_req s r) <> Some a) /\ (forall c, cp_buf (s_cp s c) <> Some a)) /\
+  (forall a r c, rq_buf (s_req s r) = Some a -> cp_buf (s_cp s c) <> Some a) /\
+  (forall a r r', rq_buf (s_req s r) = Some a -> rq_buf (s_req s r') = Some a -> r = r') /\
+  (forall a c c', cp_buf (s_cp s c) = Some a -> cp_buf (s_cp s c') = Some a -> c = c').
+Proof. exact heap_ownership. Qed.
+Print Assumptions C04_heap_ownership.
+
+(* ... every finished attempt of every request put a prefix of the CLIENT's bytes on the wire, the
+   whole body when it read to EOF (Reader.Len() == 0); the running attempt likewise; and the memory
+   the reader points into still holds the client's bytes - whatever other requests, retries and
+   relays ran in between. *)
+Theorem C04_heap_every_attempt_sends_client_body :
+  forall cap tr s r,
+  run false cap st0 tr = Some s ->
+  (forall att fl, In (att, fl) (rq_done (s_req s r)) ->
+     att = firstn (List.length att) (rq_orig (s_req s r)) /\ (fl = true -> att = rq_orig (s_req s r))) /\
+  (rq_active (s_req s r) = true -> rq_cur (s_req s r) = firstn (rq_off (s_req s r)) (rq_orig (s_req s r))) /\
+  (forall a, rq_buf (s_req s r) = Some a -> c_data (s_heap s a) = rq_orig (s_req s r)).
+Proof. exact heap_attempts. Qed.
+Print Assumptions C04_heap_every_attempt_sends_client_body.
+
+(* ... and every run of pooledIoCopy has delivered exactly what it Read of ITS source. *)
+Theorem C04_heap_relay_delivers_own_source :
+  forall cap tr s c,
+  run false cap st0 tr = Some s ->
+  cp_n (s_cp s c) = 0%nat -> cp_out (s_cp s c) = firstn (cp_pos (s_cp s c)) (cp_src (s_cp s c)).
+Proof. exact heap_relay. Qed.
+Print Assumptions C04_heap_relay_delivers_own_source.
+
+(* reachable: buffer size 2; a relay, then a request retried once while a second relay re-uses the
+   pooled buffer between the two attempts *)
+Example C04_heap_nonvacuous :
+  done_of (run false 2 st0 wit_ok_trace) 0%nat = [([65]%N, false); ([65; 66]%N, true)] /\
+  (match run false 2 st0 wit_ok_trace with Some s => cp_out (s_cp s 1%nat) | None => [] end) = [120; 121]%N.
+Proof. exact wit_ok_runs. Qed.
+
+(* newBufferedBody borrowing its backing array from bufferPool (seeded C04-m3): a complete attempt
+   sends another exchange's bytes. *)
+Theorem C04_heap_pooled_body_refuted :
+  exists cap tr s r att,
+    run true cap st0 tr = Some s /\ In (att, true) (rq_done (s_req s r)) /\ att <> rq_orig (s_req s r).
+Proof. exact pooled_body_refuted. Qed.
+Print Assumptions C04_heap_pooled_body_refuted.
